@@ -171,6 +171,8 @@ def check(repo, col, tier):
     _ends(repo, col)
     _scheme(repo, col)
     _refuse(repo, col)
+    col.rule("R-C01-explicit", "forward Euler vector field of an unbranched module", 4)
+    _vectorfield(repo, col)
 
 
 # --------------------------------------------------------------------------------------
@@ -751,6 +753,40 @@ def _level_io(repo, col, fi):
     bad = [(a, m) for a, m in sc if want.get(a) != m]
     col.check(not bad and sc, R, fi, f"{fi.name}: results scattered with the accessor they were gathered with",
               f"{sorted(set(sc))}", f"{fi.name} scatters {bad}", node=fi.node)
+    # the results REPLACE the level's entries: `.at[...].add(...)` would add the new row to the old one
+    adds = [n for n in ast.walk(fi.node) if isinstance(n, ast.Call) and isinstance(n.func, ast.Attribute) and n.func.attr in ("add", "multiply", "mul") and
+            isinstance(n.func.value, ast.Subscript) and isinstance(n.func.value.value, ast.Attribute) and n.func.value.value.attr == "at" and
+            unparse(n.func.value.value.value) in want]
+    col.check(not adds, R, fi, f"{fi.name}: eliminated / solved entries overwrite the level's entries", ".at[...].set(...)",
+              f"`{unparse(adds[0])[:70] if adds else ''}` accumulates onto the old entries instead of replacing them", node=adds[0] if adds else fi.node)
+    # the kernel receives (lower, diag, upper, solve) / (solve, lower, diag) in the order of ITS signature (third-party tridiax,
+    # read from the installed package; fallback: the documented order)
+    sigs = {"triang": ["lower", "diag", "upper", "solve"], "backsub": ["solve", "lower", "diag"]}
+    try:
+        import inspect
+        from tridiax.thomas import thomas_triang_upper as _tt, thomas_backsub_lower as _tb
+        from tridiax.stone import stone_triang_upper as _st, stone_backsub_lower as _sb
+        pt, ps = list(inspect.signature(_tt).parameters), list(inspect.signature(_st).parameters)
+        bt, bs = list(inspect.signature(_tb).parameters), list(inspect.signature(_sb).parameters)
+        if pt[:4] == ps[:4] and bt[:3] == bs[:3]:
+            sigs = {"triang": pt[:4], "backsub": bt[:3]}
+        col.info["tridiax_signatures"] = {"triang": pt, "backsub": bt}
+    except Exception:
+        col.info["tridiax_signatures"] = "package not importable; documented order used"
+    kind = "triang" if "triang" in fi.name else "backsub"
+    kc = next((n for n in ast.walk(fi.node) if isinstance(n, ast.Call) and isinstance(n.func, ast.Call) and
+               unparse(n.func.func).split(".")[-1] == "vmap" and n.func.args and isinstance(n.func.args[0], ast.Name) and
+               n.func.args[0].id.endswith("_fn")), None)
+    if kc is None:
+        col.unk(R, fi, f"{fi.name}: kernel call", "vmap(<kernel>)(...) not found", node=fi.node)
+    else:
+        got = []
+        for a_ in kc.args:
+            root = a_.value.id if (isinstance(a_, ast.Subscript) and isinstance(a_.value, ast.Name)) else (a_.id if isinstance(a_, ast.Name) else "?")
+            got.append(root.rstrip("s") if root.endswith("s") else root)
+        col.check(got == sigs[kind], R, fi, f"{fi.name}: kernel arguments follow the kernel's signature {tuple(sigs[kind])}", str(got),
+                  f"the kernel is called with ({', '.join(got)}) but its parameters are ({', '.join(sigs[kind])}): the bands of the "
+                  f"tridiagonal system are interchanged", node=kc)
 
 
 # --------------------------------------------------------------------------------------
@@ -1100,6 +1136,76 @@ def key_is_sparse_ast(t) -> bool:
 
 
 # --------------------------------------------------------------------------------------
+
+
+def _vectorfield(repo, col, R="R-C01-explicit"):
+    """Forward Euler on unbranched modules:  dv/dt [i] = -g_m[i] v[i] + c[i] + g(i<-i+1) (v[i+1] - v[i]) + g(i<-i-1) (v[i-1] - v[i]),
+    with g(i<-j) the conductance of the within-branch edge (type 0) whose SINK is i and whose SOURCE is j."""
+    fi = repo.func(SV, "_voltage_vectorfield")
+    ex = idxm.expander(repo, fi)
+    r = ex.returns[-1] if ex.returns else None
+    if r is None:
+        raise AnalysisError("_voltage_vectorfield has no return")
+    from sa.termalg import term_rat
+    # peel the chain  base.at[s].add(x).at[s'].add(y)
+    adds = []
+    t = r
+    while t.op == "mcall" and t.name in ("add", "set") and t.args and t.args[0].op == "sub" and t.args[0].args[0].op == "attr" and t.args[0].args[0].name == "at":
+        adds.append((t.name, t.args[0].args[1], t.args[1] if len(t.args) > 1 else None))
+        t = t.args[0].args[0].args[0]
+    base = t
+    try:
+        form = term_rat(base, lambda x: Rat.atom(x.name) if x.op == "param" and x.name in ("voltages", "voltage_terms", "constant_terms") else None)
+        ok = form.eq(Rat.atom("constant_terms") - Rat.atom("voltage_terms") * Rat.atom("voltages"))
+    except Und:
+        ok, form = False, None
+    col.check(ok, R, fi, "membrane part of the vector field: -voltage_terms * v + constant_terms", "",
+              f"the membrane part is {form if form is not None else base.short(80)}", node=fi.node)
+
+    def col_slice(sl):
+        """'lo' for [:, :-1] (compartments that have a right neighbour), 'hi' for [:, 1:], else None"""
+        if sl.op == "tuple" and len(sl.args) == 2 and sl.args[1].op == "slice":
+            a_, b_, c_ = sl.args[1].args
+            m1 = lambda z: (z.op == "const" and z.name == -1) or (z.op == "unary" and z.name == "USub" and z.args[0].op == "const" and z.args[0].name == 1)
+            none = lambda z: z.op == "const" and z.name is None
+            if none(a_) and m1(b_) and none(c_):
+                return "lo"
+            if a_.op == "const" and a_.name == 1 and none(b_) and none(c_):
+                return "hi"
+        return None
+    seen = {}
+    for meth, sl, val in adds:
+        which = col_slice(sl)
+        if which is None or val is None:
+            col.unk(R, fi, "axial part of the vector field", f"update of {sl.short(40)} not recognised", node=fi.node)
+            continue
+        good = meth == "add" and val.op == "binop" and val.name == "*"
+        detail = val.short(120)
+        if good:
+            d, g = val.args if val.args[0].op == "binop" and val.args[0].name == "-" else (val.args[1], val.args[0])
+            good = d.op == "binop" and d.name == "-" and all(a_.op == "sub" and a_.args[0].op == "param" and a_.args[0].name == "voltages" for a_ in d.args)
+            if good:
+                nb, own = col_slice(d.args[0].args[1]), col_slice(d.args[1].args[1])
+                # (neighbour - self): self is the slice being updated, the neighbour the other one
+                good = own == which and nb is not None and nb != which
+                # conductances: edges of type 0 whose source is the RIGHT neighbour (source > sink) for 'lo', the left one for 'hi'
+                c2c = T.find(g, lambda x: x.op == "cmp" and x.name == "==" and x.args[0].op == "param" and x.args[0].name == "types" and
+                             x.args[1].op == "const" and x.args[1].name == 0)
+                sel = T.find(g, lambda x: x.op == "cmp" and x.name in ("<", ">") and len(x.args) == 2 and
+                             T.find(x.args[0], lambda y: y.op == "param" and y.name in ("sources", "sinks")) is not None and
+                             T.find(x.args[1], lambda y: y.op == "param" and y.name in ("sources", "sinks")) is not None)
+                dirn = None
+                if sel is not None:
+                    l_is_src = T.find(sel.args[0], lambda y: y.op == "param" and y.name == "sources") is not None
+                    src_gt = (sel.name == ">") == l_is_src
+                    dirn = "lo" if src_gt else "hi"
+                cond_ok = c2c is not None and dirn == which and T.find(g, lambda x: x.op == "param" and x.name == "axial_conductances") is not None
+                good = good and cond_ok
+                detail = f"(v[{nb}] - v[{own}]) * g, g selected by {sel.short(50) if sel is not None else None} within {c2c.short(30) if c2c is not None else None}"
+        seen[which] = good
+        col.check(good, R, fi, f"axial part: compartments {'with a right' if which == 'lo' else 'with a left'} neighbour receive g * (v_neighbour - v_self)",
+                  "conductance of the type-0 edge from that neighbour", f"update of the {which} slice is {meth}({detail})", node=fi.node)
+    col.check(set(seen) == {"lo", "hi"}, R, fi, "both neighbours contribute to the explicit vector field", "", f"updated slices: {sorted(seen)}", node=fi.node)
 
 
 def _refuse(repo, col):
